@@ -477,6 +477,25 @@ func counterAgreement(c *Ctx, rule string) {
 				if len(st.Lhs) != 1 || len(st.Rhs) != 1 || !mentionsCurrent(st.Rhs[0]) {
 					continue
 				}
+				// r := parser.Range{From: rw.Current} before the loop (or … {To: rw.Current} after it)
+				if cl, ok := ast.Unparen(st.Rhs[0]).(*ast.CompositeLit); ok {
+					matched := false
+					for _, el := range cl.Elts {
+						if kv, ok := el.(*ast.KeyValueExpr); ok && mentionsCurrent(kv.Value) {
+							if k, _ := kv.Key.(*ast.Ident); k != nil {
+								if k.Name == "From" && i < loopIdx {
+									fromOK, matched = true, true
+								}
+								if k.Name == "To" && i > loopIdx {
+									toOK, matched = true, true
+								}
+							}
+						}
+					}
+					if matched {
+						continue
+					}
+				}
 				switch {
 				case fieldTail(st.Lhs[0]) == "From" && i < loopIdx:
 					fromOK = true
@@ -881,18 +900,23 @@ func mirrorHelper(p *packages.Package, fn *types.Func) (string, string, bool) {
 			if !ok {
 				return true
 			}
-			ix2, ok := ix.X.(*ast.IndexExpr)
-			if !ok {
+			var tbl, k1 string
+			if ix2, ok := ix.X.(*ast.IndexExpr); ok {
+				tbl, k1 = types.ExprString(ix2.X), types.ExprString(ix2.Index)
+			} else if gc, ok := ix.X.(*ast.CallExpr); ok && len(gc.Args) == 2 && isGetOrCreateRow(p, calleeOf(info, gc)) {
+				// the row through a get-or-create helper: rowOf(table, a.Line)[a.Col] = b
+				tbl, k1 = types.ExprString(gc.Args[0]), types.ExprString(gc.Args[1])
+			} else {
 				return true
 			}
 			rhs := types.ExprString(as.Rhs[0])
-			k1, k2 := types.ExprString(ix2.Index), types.ExprString(ix.Index)
+			k2 := types.ExprString(ix.Index)
 			switch {
 			case k1 == prm[0]+".Line" && k2 == prm[0]+".Col" && rhs == prm[1]:
-				m1 = types.ExprString(ix2.X)
+				m1 = tbl
 				n++
 			case k1 == prm[1]+".Line" && k2 == prm[1]+".Col" && rhs == prm[0]:
-				m2 = types.ExprString(ix2.X)
+				m2 = tbl
 				n++
 			default:
 				n += 10 // some other position store: not a pure mirror helper
@@ -911,4 +935,67 @@ func mirrorHelper(p *packages.Package, fn *types.Func) (string, string, bool) {
 		}
 	}
 	return "", "", false
+}
+
+// isGetOrCreateRow: fn(m, k) returns m[k], creating the row first when it is missing: its body indexes its first
+// parameter by its second, stores a made map there, and every return hands back what m[k] holds.
+func isGetOrCreateRow(p *packages.Package, fn *types.Func) bool {
+	if fn == nil || fn.Pkg() != p.Types {
+		return false
+	}
+	info := p.TypesInfo
+	for _, fd := range allFuncDecls(p) {
+		if info.Defs[fd.Name] != types.Object(fn) || fd.Body == nil {
+			continue
+		}
+		prms := paramObjs(info, fd)
+		if len(prms) != 2 || prms[0] == nil || prms[1] == nil {
+			return false
+		}
+		isRowExpr := func(e ast.Expr) bool {
+			ix, ok := ast.Unparen(e).(*ast.IndexExpr)
+			if !ok {
+				return false
+			}
+			a, ok1 := ast.Unparen(ix.X).(*ast.Ident)
+			b, ok2 := ast.Unparen(ix.Index).(*ast.Ident)
+			return ok1 && ok2 && info.ObjectOf(a) == prms[0] && info.ObjectOf(b) == prms[1]
+		}
+		rowLocals := map[types.Object]bool{}
+		stores := false
+		ast.Inspect(fd.Body, func(n ast.Node) bool {
+			if as, ok := n.(*ast.AssignStmt); ok && len(as.Rhs) == 1 {
+				if isRowExpr(as.Rhs[0]) {
+					if id, ok := as.Lhs[0].(*ast.Ident); ok {
+						rowLocals[info.ObjectOf(id)] = true
+					}
+				}
+				if len(as.Lhs) == 1 && isRowExpr(as.Lhs[0]) {
+					stores = true
+					if id, ok := ast.Unparen(as.Rhs[0]).(*ast.Ident); ok {
+						rowLocals[info.ObjectOf(id)] = true
+					}
+				}
+			}
+			return true
+		})
+		okRet, nret := true, 0
+		ast.Inspect(fd.Body, func(n ast.Node) bool {
+			if ret, ok := n.(*ast.ReturnStmt); ok {
+				nret++
+				if len(ret.Results) != 1 {
+					okRet = false
+				} else if id, ok := ast.Unparen(ret.Results[0]).(*ast.Ident); ok {
+					if !rowLocals[info.ObjectOf(id)] {
+						okRet = false
+					}
+				} else if !isRowExpr(ret.Results[0]) {
+					okRet = false
+				}
+			}
+			return true
+		})
+		return stores && okRet && nret > 0
+	}
+	return false
 }
